@@ -554,9 +554,38 @@ func init() {
 	reg("fmt.Println", func(in *Interp, fn *ssa.Function, args []Value) Value { return Tuple{intC(0), Iface{}} })
 	reg("fmt.Printf", func(in *Interp, fn *ssa.Function, args []Value) Value { return Tuple{intC(0), Iface{}} })
 	reg("fmt.Print", func(in *Interp, fn *ssa.Function, args []Value) Value { return Tuple{intC(0), Iface{}} })
-	reg("fmt.Fprintf", func(in *Interp, fn *ssa.Function, args []Value) Value { return Tuple{intC(0), Iface{}} })
-	reg("fmt.Fprintln", func(in *Interp, fn *ssa.Function, args []Value) Value { return Tuple{intC(0), Iface{}} })
-	reg("fmt.Fprint", func(in *Interp, fn *ssa.Function, args []Value) Value { return Tuple{intC(0), Iface{}} })
+	// fmt.Fprint*: the text goes to the writer's Write method when the writer is
+	// a program object (e.g. *strings.Builder); other writers (os.Stderr, havoc
+	// objects) swallow it.
+	fprint := func(in *Interp, w Value, s Str) Value {
+		if iv, ok := w.(Iface); ok && iv.T != nil && !strings.HasPrefix(iv.T.String(), "opaque:") {
+			if p, isPtr := iv.V.(Ptr); isPtr && iv.T.String() == "*os.File" {
+				// os.Stdout/os.Stderr (not opened through the model file system): swallow
+				if p.C == nil || in.sideTab[fmt.Sprintf("os:file:%d", p.C.ID)] == nil {
+					return Tuple{intC(len(s.B)), Iface{}}
+				}
+			}
+			if _, isOpaque := iv.V.(Opaque); !isOpaque {
+				if wf := in.findMethod(iv.T, "Write"); wf != nil {
+					cells := make([]*Cell, len(s.B))
+					for i, b := range s.B {
+						cells[i] = &Cell{T: types.Typ[types.Uint8], V: b, ID: in.newID()}
+					}
+					return in.callFunction(wf, []Value{iv.V, Slice{cells}}, nil)
+				}
+			}
+		}
+		return Tuple{intC(len(s.B)), Iface{}}
+	}
+	reg("fmt.Fprintf", func(in *Interp, fn *ssa.Function, args []Value) Value {
+		return fprint(in, args[0], in.sprintf(args[1].(Str), args[2].(Slice)))
+	})
+	reg("fmt.Fprintln", func(in *Interp, fn *ssa.Function, args []Value) Value {
+		return fprint(in, args[0], in.sprint(args[1].(Slice), true))
+	})
+	reg("fmt.Fprint", func(in *Interp, fn *ssa.Function, args []Value) Value {
+		return fprint(in, args[0], in.sprint(args[1].(Slice), false))
+	})
 }
 
 var errIface *types.Interface
